@@ -194,7 +194,7 @@ pub fn minimise(scn: &Scn, class: &str, cap: u64, budget: usize) -> Scn {
                     t.sched = Sched::Explicit(sub.to_vec());
                     test(&t, &mut calls)
                 },
-                60,
+                budget / 3 + 20,
             );
             cur.sched = Sched::Explicit(min);
         }
